@@ -132,6 +132,9 @@ def mutations(view, skip_log=True):
                 kind = 'escape'
             mu = Mutation(view, cs.bb, kind, b[1], callee=cs.nfn, cs=cs, ln=cs.ln, mac=cs.mac)
             mu.idx = len(view.blocks[cs.bb]['stmts'])
+            if short(cs.nfn) == 'Option::take':
+                # `x.take()` is the write `x := None` (its result is the old value): kept as a mutcall, with the value it leaves behind
+                mu.rv = ('agg', 'std::option::Option', 'None', ())
             out.append(mu)
     return out
 
